@@ -8,7 +8,9 @@
 //! every non-empty subset of the root selections legal for that kind (query: `__schema`, `__type`,
 //! `__typename`, `_service{sdl}`, `_entities(...)`, ordinary scalar field, ordinary object field =
 //! 127 subsets; mutation: `__typename`, counter field, object field = 7; subscription: two fields = 3)
-//! × how the selections are wrapped {direct, `... on Root {}`, named fragment} (query / mutation).
+//! × how the selections are wrapped {direct, `... on Root {}`, named fragment} (query / mutation)
+//! × entry point {`execute` with request-level setters; static only: `execute_batch` with the
+//! `BatchRequest`-level setters}.
 //!
 //! Oracle: either level Disabled ⇒ no type or field name from `__schema`, `__type`, `_service.sdl` in
 //! any response (structural and substring test on sentinel names); either level IntrospectionOnly ⇒
@@ -275,6 +277,8 @@ struct Case {
     subset: u32,
     wrap: usize,
     reversed: bool,
+    /// static query/mutation only: a `BatchRequest` whose mode is set with the batch-level setters, run by `execute_batch`
+    via_batch: bool,
 }
 
 fn document(c: &Case) -> (String, Vec<&'static str>) {
@@ -327,6 +331,18 @@ fn execute(s: &Schemas, c: &Case, doc: &str) -> Result<Obs, String> {
                     }
                 }
             }
+        } else if c.via_batch {
+            let batch = BatchRequest::Batch(vec![Request::new(doc).data(log.clone())]);
+            let batch = match c.request_mode {
+                0 => batch,
+                1 => batch.disable_introspection(),
+                _ => batch.introspection_only(),
+            };
+            match drive(s.st[c.schema_mode].execute_batch(batch)) {
+                Some(BatchResponse::Batch(rs)) => out.extend(rs),
+                Some(BatchResponse::Single(r)) => out.push(r),
+                None => parked = true,
+            }
         } else {
             let r = if c.flavour == 0 { drive(s.st[c.schema_mode].execute(req)) } else { drive(s.dy[c.schema_mode].execute(req)) };
             match r {
@@ -349,11 +365,11 @@ fn level_key(c: &Case, mode: usize) -> &'static str {
 }
 
 fn base_keys(v: Violation, c: &Case) -> Violation {
-    v.key("flavour", FLAVOURS[c.flavour]).key("operation", KINDS[c.kind].0).key("schema_mode", MODES[c.schema_mode]).key("request_mode", MODES[c.request_mode]).key("wrap", WRAPS[c.wrap])
+    v.key("flavour", FLAVOURS[c.flavour]).key("entry", if c.via_batch { "execute_batch" } else if c.kind == 2 { "execute_stream" } else { "execute" }).key("operation", KINDS[c.kind].0).key("schema_mode", MODES[c.schema_mode]).key("request_mode", MODES[c.request_mode]).key("wrap", WRAPS[c.wrap])
 }
 
 fn case_json(c: &Case, doc: &str) -> serde_json::Value {
-    json!({"flavour": c.flavour, "schema_mode": c.schema_mode, "request_mode": c.request_mode, "kind": c.kind, "subset": c.subset, "wrap": c.wrap, "reversed": c.reversed, "document": doc})
+    json!({"flavour": c.flavour, "schema_mode": c.schema_mode, "request_mode": c.request_mode, "kind": c.kind, "subset": c.subset, "wrap": c.wrap, "reversed": c.reversed, "via_batch": c.via_batch, "document": doc})
 }
 
 /// Schema metadata found in one response: (field, what).
@@ -487,7 +503,7 @@ fn check_case(cx: &Cx, s: &Schemas, c: &Case) {
         cx.nontrivial_count(1);
     }
     cx.extra_add(if typename_judged { "typename_judged" } else { "typename_not_selected_or_no_data" }, 1);
-    let id = agv_engine::h64(&(c.flavour, c.schema_mode, c.request_mode, c.kind, c.subset, c.wrap, c.reversed));
+    let id = agv_engine::h64(&(c.flavour, c.schema_mode, c.request_mode, c.kind, c.subset, c.wrap, c.reversed, c.via_batch));
     cx.sample_with(id, || json!({"flavour": FLAVOURS[c.flavour], "schema_mode": MODES[c.schema_mode], "request_mode": MODES[c.request_mode], "document": doc, "resolver_log": o.log, "responses": o.responses.iter().map(|r| trunc(&r.to_string())).collect::<Vec<_>>()}));
 }
 
@@ -519,7 +535,10 @@ fn all_cases(thorough: bool) -> Vec<Case> {
                                 if reversed && (!thorough || subset.count_ones() < 2) {
                                     continue;
                                 }
-                                v.push(Case { flavour, schema_mode, request_mode, kind, subset, wrap, reversed });
+                                v.push(Case { flavour, schema_mode, request_mode, kind, subset, wrap, reversed, via_batch: false });
+                                if flavour == 0 && kind != 2 {
+                                    v.push(Case { flavour, schema_mode, request_mode, kind, subset, wrap, reversed, via_batch: true });
+                                }
                             }
                         }
                     }
@@ -538,7 +557,7 @@ pub fn run(cx: &Cx) {
     cx.rule(
         "case = (flavour static/dynamic, schema-level mode, request-level mode, operation kind, non-empty subset of that kind's root selections, wrapping). All 3x3 mode pairs; query: 127 subsets of \
          {__schema, __type, __typename, _service{sdl}, _entities, scalar field, object field}; mutation: 7 subsets of {__typename, counter, object field}; subscription: 3 subsets of two fields; \
-         query/mutation selections direct, under `... on Root {}` and in a named fragment [thorough: also in reversed order]. \
+         query/mutation selections direct, under `... on Root {}` and in a named fragment, through execute and (static) execute_batch with batch-level mode setters [thorough: also in reversed order]. \
          Non-trivial = a case in which at least one oracle clause applies (a level is Disabled or IntrospectionOnly, or __typename was selected and a data object came back).",
     );
     cx.assume("'the operation executes' = the response carries a data object; requests rejected by validation (e.g. __schema on a schema built with introspection disabled) or nulled by a field error are not judged for __typename");
@@ -561,7 +580,7 @@ pub fn run(cx: &Cx) {
 
 pub fn replay(case: &serde_json::Value) -> String {
     let g = |k: &str| case[k].as_u64().unwrap_or(0) as usize;
-    let c = Case { flavour: g("flavour"), schema_mode: g("schema_mode"), request_mode: g("request_mode"), kind: g("kind"), subset: g("subset") as u32, wrap: g("wrap"), reversed: case["reversed"].as_bool().unwrap_or(false) };
+    let c = Case { flavour: g("flavour"), schema_mode: g("schema_mode"), request_mode: g("request_mode"), kind: g("kind"), subset: g("subset") as u32, wrap: g("wrap"), reversed: case["reversed"].as_bool().unwrap_or(false), via_batch: case["via_batch"].as_bool().unwrap_or(false) };
     let schemas = match build_schemas() {
         Ok(s) => s,
         Err(e) => return e,
